@@ -26,12 +26,21 @@ CHECKS = {
  "C09": dict(cat="exploration", tech="bounded-exhaustive enumeration with reference encoders as generators: all 2^24 predictor byte triples per PNG filter type and bpp, all small frame geometries x filter assignments, all ASCII85 inputs of length <=3 (+ stratified/all 4-byte groups), LZW width-switch and reset boundaries, all 39 filter chains; explicit-state BFS over compress/decompress/set_content operations",
    text="Reference encoders written from the PNG, LZW/TIFF, Adobe ASCII85 and zlib definitions produce the encoded stream from known plain data; lopdf's decode path must return the original bytes for every case of the stated spaces; a BFS over stream-editing operations checks Length == content length, lossless compress/decompress and that compress never grows a stream in every reachable state.",
    note="trusts harness/src/refcodec.rs (self-tested on every run against published vectors and flate2's inflater); TIFF predictor 2 and BitsPerComponent < 8 are outside the statement"),
+ "C11": dict(cat="model_checking", tech="explicit-state breadth-first search over sequences of ~40 editing-operation instances from 4 start documents on the real Document next to an abstract model, states deduplicated by canonical digest, 8 invariants evaluated after every transition",
+   text="Every operation sequence up to depth 3 (quick) / 4 (thorough) over the alphabet {allocate id, add, set, delete object, remove annotation, prune, delete pages, renumber, compress/decompress, add/change/append page content, add xobject / graphics state, bookmarks + build_outline, delete zero-length streams, save+reload in both formats} is executed on the real code; fresh ids, preservation of reachable objects outside the documented footprint, no dangling reference after deletion, exact pruning, page-tree Counts, page content vs the model, effective (own or inherited) resources and save validity (strict reader + reload) are checked in every state.",
+   note="trusts the harness's own reachability, page-tree walk and isomorphism routines; delete_object is applied only to non-structural objects, set_object only outside the page tree's closure (domain of the statement)"),
  "C13": dict(cat="exploration", tech="deviation-bounded exhaustive typed-chaos exploration: every dictionary entry / array element / object of a query-complete skeleton document x 18 value shapes + a reference to every object (all link cycles), pairs in thorough; all 22 read-only query groups per case in isolated worker processes with time, stack and allocation budgets",
    text="Each mutant document is built in a worker process and every public read-only query is called; the outcome must be a return (value or error) within 2 s, 8 MiB stacks and the allocation allowance; panics, aborts (stack overflow), hangs and oversized allocation requests are violations, pinpointed per query and replayed in a fresh worker.",
    note="the skeleton fixes which keys exist; keys the query code reads that the skeleton lacks are listed in the evidence; budgets are thresholds chosen by the harness (DESIGN §2.5)"),
+ "C14": dict(cat="exploration", tech="bounded-exhaustive enumeration of content operations: all byte pairs + sharp k-tuples in string/name operands (6 contexts), 153 operators x all operand tuples of length <=3 over 14 kinds, all operand trees <=3 nodes, all operation sequences of length <=2/<=3 over an 84-entry adjacency menu, stratified reals, 960 inline-image geometries x data strings",
+   text="decode(encode(ops)) must return the same operators with equal operands in order for every enumerated operation list (each unit alone and inside batches with neighbours); for inline images decode(encode(decode(bytes))) == decode(bytes) and decode(bytes) is the image that was built.",
+   note="operator spellings starting with null/true/false and d0/d1 are outside the parser's documented alphabet (domain restriction recorded in the evidence); inline image data longer than 3-4 bytes comes from a pattern menu"),
  "C15": dict(cat="exploration", tech="bounded-exhaustive enumeration of ToUnicode CMaps: all sequences of <=2/<=3 definitions from a 170-entry menu x deviation-bounded rendering choices (white-space, line ends, sectioning, hex case) x all single codes and ordered code pairs, against reference 'last definition wins' semantics",
    text="Every CMap of the stated space is rendered to real CMap text, parsed by lopdf through get_font_encoding and decoded with Document::decode_text for every mapped code and every ordered pair of codes; the text must equal the reference semantics (last covering definition wins, range offset added to the last UTF-16 unit, arrays indexed, surrogates combined).",
    note="trusts harness/src/refcmap.rs; 'liberal' PostScript spellings that lopdf's grammar rejects are counted separately and only a mis-decode (not a rejection) would be a violation; code lengths 3-4 spot-checked"),
+ "C16": dict(cat="exploration", tech="exhaustive enumeration of all 1,112,064 Unicode scalar values and all strings <=3/<=5 over a 14-character sharp alphabet through text_string/encode_utf16_be/encode_utf8 -> decode_text_string; all 5 x 256 one-byte table cells against published tables; extraction documents per table byte before/after save+load",
+   text="Every scalar value and every short sharp string must round-trip through the text-string functions with the documented encoded form; every cell of the five one-byte encodings reachable through get_font_encoding decodes, re-encodes consistently and agrees with the published WinAnsi/MacRoman/PDFDoc tables on printable ASCII and Latin-1; text shown with each byte of each table's repertoire is returned unchanged by extract_text, also after save+load in both formats.",
+   note="cells whose published value differs between glyph-name and code-page conventions are excluded and listed in the evidence; extraction pairs are a seed-rotated slice in quick"),
  "C17": dict(cat="exploration", tech="bounded-exhaustive enumeration of bookmark forests (all ordered forests with <=3/<=4 nodes x all parent-before-child insertion orders x page assignments incl. zero-page parents x rotating title menu), oracle on the built outline objects and on get_toc before/after save+load",
    text="Every forest/insertion order/page assignment of the bound is built through add_bookmark, adjust_zero_pages and build_outline; created ids must be fresh, First/Last/Next/Prev/Parent links mutually consistent with insertion order, titles and destinations correct, and get_toc must return the preorder (title, level, page) list, also after save+load in both formats; each case runs twice to show independence from HashMap iteration order.",
    note="titles are assigned by rotation over a 10-entry menu (distinct per case), not the full product; flat page tree"),
